@@ -40,3 +40,24 @@ def route (v : View) (h : Nat) : Option Nat :=
   if vs.isEmpty then none else (vs[h % vs.length]?).map (·.id)
 
 end RNacos.Distro
+
+namespace RNacos.Distro
+
+/-- `InnerNodeManage` as a state machine: the owner range is cached and recomputed by `update_nodes`
+and by every `check_node_status` tick (3 s), not when a node reports in (`ActiveNode`). -/
+structure NM where
+  view : View
+  loc : Nat
+  range : Nat × Nat
+  deriving Repr
+
+/-- `check_node_status`: non-local valid nodes that timed out become invalid; the range is recomputed -/
+def NM.tick (m : NM) (timedOut : Nat → Bool) : NM :=
+  let v := m.view.map fun n => if n.id != m.loc && n.valid && timedOut n.id then { n with valid := false } else n
+  { m with view := v, range := ownerRange v m.loc }
+
+/-- `active_node`: the node counts as valid again; the cached range is left alone until the next tick -/
+def NM.active (m : NM) (id : Nat) : NM :=
+  { m with view := m.view.map fun n => if n.id == id then { n with valid := true } else n }
+
+end RNacos.Distro
